@@ -9,6 +9,7 @@ import OapiVerif.Model.Embed
 import OapiVerif.Model.Security
 import OapiVerif.Model.Enums
 import OapiVerif.Model.Merge
+import OapiVerif.Model.Union
 /-!
 Line-protocol driver: one JSON object per line in, one per line out.
 `{"fn": <name>, ...}` ↦ `{"ok": <result>}` or `{"err": "bad-op"}` (never a default).
@@ -359,8 +360,31 @@ def mergeD (j : Json) : Except String Json := do
       ("addlHas", match r.addlHas with | some b => Json.bool b | none => Json.null),
       ("addlSchema", match r.addlSchema with | some a => Json.num a | none => Json.null), ("flags", Json.num r.flags)])
 
+def getPairs (j : Json) (k : String) : Except String (List (String × String)) := do
+  let a ← (← j.getObjVal? k).getArr?
+  a.toList.mapM fun e => do
+    let l ← e.getArr?
+    if l.size != 2 then throw "pair" else
+    pure ((← l[0]!.getStr?), (← l[1]!.getStr?))
+
+def unionTableD (j : Json) : Except String Json := do
+  let explicit ← getPairs j "explicit"
+  let names ← getPairs j "names"
+  let types ← getPairs j "types"
+  let elements ← strs j "elements"
+  let name (r : String) := (Union.lookup names r).getD ""
+  let goType (r : String) := (Union.lookup types r).getD ""
+  let t := Union.table explicit name goType elements
+  let sorted := (t.map (·.1)).mergeSort (fun a b => a ≤ b)
+  pure (Json.mkObj [
+    ("table", Json.arr (t.map fun e => Json.arr #[Json.str e.1, Json.str e.2]).toArray),
+    ("complete", Json.bool (Union.complete explicit name goType elements)),
+    ("written", Json.arr (elements.map fun r => Json.arr #[Json.str (goType r),
+        match Union.written t sorted (goType r) with | some v => Json.str v | none => Json.null]).toArray)])
+
 def dispatch (fn : String) (j : Json) : Except String Json :=
   match fn with
+  | "unionTable" => unionTableD j
   | "merge" => mergeD j
   | "enumNames" => enumNamesD j
   | "goQuote" => goQuoteD j
